@@ -156,35 +156,42 @@ loop:
 // ---- watchdog: a lexer that is parked forever (the step counter sees loops, not waits) ---------
 
 type slot struct {
-	mu    sync.Mutex
 	input string
 	since time.Time
 }
 
-var slots [64]slot
+// one entry per unit of work in flight (keyed by the unit's own index: two units never share an entry, so a unit that
+// is parked cannot have its entry refreshed by another one)
+var (
+	slotMu sync.Mutex
+	slots  = map[int]*slot{}
+)
 
 func watch(i int, input string) {
-	s := &slots[i%len(slots)]
-	s.mu.Lock()
-	s.input, s.since = input, time.Now()
-	s.mu.Unlock()
+	slotMu.Lock()
+	slots[i] = &slot{input: input, since: time.Now()}
+	slotMu.Unlock()
 }
 
 func unwatch(i int) {
-	s := &slots[i%len(slots)]
-	s.mu.Lock()
-	s.input, s.since = "", time.Time{}
-	s.mu.Unlock()
+	slotMu.Lock()
+	delete(slots, i)
+	slotMu.Unlock()
 }
 
 func watchdog() {
 	for {
 		time.Sleep(time.Second)
-		for i := range slots {
-			s := &slots[i]
-			s.mu.Lock()
-			in, since := s.input, s.since
-			s.mu.Unlock()
+		slotMu.Lock()
+		var in string
+		var since time.Time
+		for _, s := range slots {
+			if since.IsZero() || s.since.Before(since) {
+				in, since = s.input, s.since
+			}
+		}
+		slotMu.Unlock()
+		{
 			if !since.IsZero() && time.Since(since) > 60*time.Second {
 				// no step of the lexer for a minute and no end of the stream: it is parked (for instance on a send nobody
 				// can receive): the lexer neither terminates nor closes its channel for this input
